@@ -6,7 +6,7 @@ P=$1; CMD=$2; shift 2
 W=/var/tmp/mut-$$
 git -C /repo worktree add -q --detach $W HEAD || exit 2
 if [ -f "$CMD" ]; then (cd $W && git apply --whitespace=nowarn "$CMD"); else (cd $W && bash -c "$CMD"); fi
-if git -C $W diff --quiet; then echo "MUTATION DID NOT CHANGE ANYTHING"; git -C /repo worktree remove --force $W; exit 2; fi
-git -C $W diff | grep '^[+-]' | grep -v '^+++\|^---' | head -20
+if git -C $W diff HEAD --quiet; then echo "MUTATION DID NOT CHANGE ANYTHING"; git -C /repo worktree remove --force $W; exit 2; fi
+git -C $W diff HEAD | grep '^[+-]' | grep -v '^+++\|^---' | head -20
 (cd /verif && VERIF_REPO=$W ./check $P --no-evidence "$@" 2>&1 | tail -5)
 git -C /repo worktree remove --force $W
